@@ -67,7 +67,7 @@ def generate(seed, tier, idx=0):
             w = rng.choice([0, 0.5, 1, 1, 2])
             al.insert(rng.randint(0, len(al)), ["obs", i, v, w])
     case = {"program": prog, "strategy": 3, "stats": stats,
-            "probe": rng.random() < 0.5}
+            "probe": rng.random() < 0.5, "sized_model": rng.random() < 0.15}
     n_ev = len(prog["events"])
     if rng.random() < 0.25:
         case["pause_at"] = sorted(set(rng.randint(1, n_ev) for _ in range(rng.choice([1, 2]))))
